@@ -249,6 +249,15 @@ def falsifying_case(rng, max_depth=3, features=None, tries=40, glob=None, closur
 
 
 SPECIAL = [
+    # display elements whose class overrides == (equal to everything; a comparison result without a truth value)
+    (["a", "x"], "len([a, x]) > 5", {"a": "ANYEQ", "x": 1}),
+    (["a", "x"], "len((a, x)) > 5 or [x, a] is None", {"a": "ANYEQ", "x": 1}),
+    (["a", "x"], "len([a, x]) > 5", {"a": "NOTRUTHEQ", "x": 1}),
+    (["a", "xs"], "len((xs, a)) + len([a]) > 5", {"a": "NOTRUTHEQ", "xs": [1]}),
+    # a module-level variable read only from a generator expression nested in another one
+    (["rows"], "all(all(v < GL for v in row) for row in rows)", {"rows": [[1, 2], [8, 9]]}),
+    (["rows"], "all(all(v < cl + GL for v in row) for row in rows)", {"rows": [[1, 2], [80, 9]]}),
+    (["rows"], "[[v for v in row if v > GL] for row in rows] == []", {"rows": [[1, 2], [8, 9]]}),
     # a value whose class overrides __format__: a plain replacement field goes through format(value, ""), not through str(value)
     (["m"], "len(f'{m}') > 100", {"m": "MONEY"}),
     (["m"], "f'{m}' == ''", {"m": "MONEY"}),
